@@ -1,6 +1,1590 @@
-//! C07 — not built yet.
-use crate::report::{Ctx, Reporter};
+//! C07 — request-body channel (`actix_http::h1::Payload`): exact bytes, truthful ending, no lost
+//! wake-ups.
+//!
+//! The public pair returned by `h1::Payload::create(eof)` is driven directly, one operation at a
+//! time, with counting wakers (two for the reading side, two for the feeding side).  After every
+//! operation `refmodel::byte_channel` judges what the real channel returned:
+//!
+//! * bytes — every chunk handed to the reader is the exact next run of the uniquely numbered bytes
+//!   that were fed (or pushed back), nothing is delivered twice, nothing is skipped;
+//! * ending — `Pending` only when nothing is owed; an error only after all data, and only an error
+//!   that was set (or `Incomplete` when the sender vanished without signalling anything); a clean
+//!   end only after all data, only if `feed_eof` happened (or the channel was created at eof), and
+//!   never while a signalled error is still undelivered;
+//! * reader wake-up — a reader whose last poll said `Pending` must have had the waker of *that*
+//!   poll fired by the time the next data / eof / error / (effective) sender drop returns;
+//! * feeder wake-up — a feeder whose last `need_read` said `Pause` must have had the waker of *that*
+//!   call fired by the time a reader poll returns with fewer than 32 KiB buffered;
+//!   and a `Pause` answered while fewer than 32 KiB are buffered (the wake-up condition already
+//!   holds) must fire the waker itself;
+//! * no mutual wait — reader parked and feeder parked at the same time is a deadlock;
+//! * back-pressure — `need_read` says `Read` with more than 32 KiB buffered only if the excess
+//!   comes from `unread_data` (accepted relaxation); `Pause` is never returned once the reader is gone.
+//!
+//! Workloads: (1) every valid operation sequence over an 11-instance alphabet to a depth bound, from
+//! both `create(false)` and `create(true)`, each followed by a settling epilogue (drain, drop the
+//! sender, drain); (2) long random sequences generated online (free-form and "disciplined feeder"
+//! profiles, chunk sizes straddling the limit); (3) two wake-driven tasks (a feeder that parks on
+//! `Pause`, a reader that parks on `Pending`) under a random scheduler, where running out of
+//! runnable tasks before the body was delivered is a logical stall.
 
-pub fn run(_ctx: &Ctx, rep: &mut Reporter) {
-    rep.inconclusive("C07 monitor not built");
+use std::{
+    collections::HashSet,
+    fmt::Write as _,
+    pin::Pin,
+    sync::{
+        atomic::{AtomicU64, Ordering::Relaxed},
+        Arc,
+    },
+    task::{Context, Poll, Wake, Waker},
+};
+
+use actix_http::{error::PayloadError, h1::Payload};
+use bytes::Bytes;
+use futures_core::Stream;
+use serde_json::{json, Value};
+
+use crate::{
+    refmodel::byte_channel::{Channel, End, ErrKind, Seg, LIMIT},
+    report::{guard, panic_site, Ctx, Reporter},
+    util::Rng,
+};
+
+const MAX_CHUNK: usize = 40_000;
+const KINDS: [ErrKind; 5] =
+    [ErrKind::Overflow, ErrKind::Incomplete, ErrKind::EncodingCorrupted, ErrKind::UnknownLength, ErrKind::Io];
+
+// ------------------------------------------------------------------------------------------------
+// operations
+
+#[derive(Clone, Copy, Debug, PartialEq, Eq)]
+enum Op {
+    Feed(usize),
+    FeedEof,
+    SetErr(ErrKind),
+    DropSender,
+    /// `need_read` with feeder waker A (0) / B (1)
+    NeedRead(u8),
+    /// `poll_next` with reader waker A (0) / B (1)
+    Poll(u8),
+    /// `unread_data` with n fresh bytes
+    Unread(usize),
+    /// `unread_data` with the last (up to) n bytes of the chunk read last
+    UnreadBack(usize),
+    DropReader,
+}
+
+fn wname(w: u8) -> char {
+    if w == 0 {
+        'A'
+    } else {
+        'B'
+    }
+}
+
+impl Op {
+    fn name(&self) -> String {
+        match self {
+            Op::Feed(n) => format!("feed({n})"),
+            Op::FeedEof => "feed_eof".into(),
+            Op::SetErr(k) => format!("set_error({})", k.name()),
+            Op::DropSender => "drop_sender".into(),
+            Op::NeedRead(w) => format!("need_read({})", wname(*w)),
+            Op::Poll(w) => format!("poll({})", wname(*w)),
+            Op::Unread(n) => format!("unread({n})"),
+            Op::UnreadBack(n) => format!("unread_back({n})"),
+            Op::DropReader => "drop_reader".into(),
+        }
+    }
+    fn parse(s: &str) -> Option<Op> {
+        let (head, arg) = match s.find('(') {
+            Some(i) => (&s[..i], s[i + 1..].trim_end_matches(')')),
+            None => (s, ""),
+        };
+        let w = || if arg == "B" { 1u8 } else { 0u8 };
+        Some(match head {
+            "feed" => Op::Feed(arg.parse().ok()?),
+            "feed_eof" => Op::FeedEof,
+            "set_error" => Op::SetErr(*KINDS.iter().find(|k| k.name() == arg)?),
+            "drop_sender" => Op::DropSender,
+            "need_read" => Op::NeedRead(w()),
+            "poll" => Op::Poll(w()),
+            "unread" => Op::Unread(arg.parse().ok()?),
+            "unread_back" => Op::UnreadBack(arg.parse().ok()?),
+            "drop_reader" => Op::DropReader,
+            _ => return None,
+        })
+    }
+    fn kind(&self) -> &'static str {
+        match self {
+            Op::Feed(0) => "feed-empty",
+            Op::Feed(n) if *n >= LIMIT => "feed>=limit",
+            Op::Feed(_) => "feed",
+            Op::FeedEof => "feed_eof",
+            Op::SetErr(_) => "set_error",
+            Op::DropSender => "drop_sender",
+            Op::NeedRead(_) => "need_read",
+            Op::Poll(_) => "poll",
+            Op::Unread(_) => "unread",
+            Op::UnreadBack(_) => "unread_back",
+            Op::DropReader => "drop_reader",
+        }
+    }
+    fn kind_code(&self) -> u64 {
+        match self {
+            Op::Feed(0) => 0,
+            Op::Feed(n) if *n >= LIMIT => 1,
+            Op::Feed(_) => 2,
+            Op::FeedEof => 3,
+            Op::SetErr(_) => 4,
+            Op::DropSender => 5,
+            Op::NeedRead(_) => 6,
+            Op::Poll(_) => 7,
+            Op::Unread(_) => 8,
+            Op::UnreadBack(_) => 9,
+            Op::DropReader => 10,
+        }
+    }
+}
+
+/// What the real channel answered (abstracted).
+#[derive(Clone, Copy, Debug, PartialEq, Eq)]
+enum Out {
+    Done,
+    Skipped,
+    Data,
+    Pending,
+    Err(ErrKind),
+    End,
+    Read,
+    Pause,
+    Dropped,
+}
+
+impl Out {
+    fn name(&self) -> String {
+        match self {
+            Out::Done => "ok".into(),
+            Out::Skipped => "skipped".into(),
+            Out::Data => "data".into(),
+            Out::Pending => "pending".into(),
+            Out::Err(k) => format!("err({})", k.name()),
+            Out::End => "end".into(),
+            Out::Read => "read".into(),
+            Out::Pause => "pause".into(),
+            Out::Dropped => "dropped".into(),
+        }
+    }
+    fn code(&self) -> u64 {
+        match self {
+            Out::Done => 0,
+            Out::Skipped => 1,
+            Out::Data => 2,
+            Out::Pending => 3,
+            Out::Err(_) => 4,
+            Out::End => 5,
+            Out::Read => 6,
+            Out::Pause => 7,
+            Out::Dropped => 8,
+        }
+    }
+}
+
+// ------------------------------------------------------------------------------------------------
+// counting wakers and byte patterns
+
+struct CountWaker(AtomicU64);
+
+impl Wake for CountWaker {
+    fn wake(self: Arc<Self>) {
+        self.0.fetch_add(1, Relaxed);
+    }
+    fn wake_by_ref(self: &Arc<Self>) {
+        self.0.fetch_add(1, Relaxed);
+    }
+}
+
+struct W {
+    c: Arc<CountWaker>,
+    w: Waker,
+}
+
+impl W {
+    fn new() -> W {
+        let c = Arc::new(CountWaker(AtomicU64::new(0)));
+        W { w: Waker::from(c.clone()), c }
+    }
+    fn n(&self) -> u64 {
+        self.c.0.load(Relaxed)
+    }
+}
+
+/// Everything that is shared by all cases of one shard: the wakers (snapshots are relative, so
+/// they can be reused) and the byte patterns the numbered bytes take their values from.
+struct Env {
+    r: [W; 2],
+    i: [W; 2],
+    fed: Bytes,
+    unr: Bytes,
+    /// fed-pattern offsets wrap at this modulus (so a slice of MAX_CHUNK always fits)
+    fed_mod: usize,
+    unr_mod: usize,
+}
+
+impl Env {
+    fn new(miri: bool) -> Env {
+        let fed_len = if miri { 3 * MAX_CHUNK } else { 1 << 20 };
+        let unr_len = if miri { 2 * MAX_CHUNK } else { 8 * MAX_CHUNK };
+        // Position-dependent content: a pseudo-random 4 KiB block repeated, each repetition
+        // stamped with its block number, so that any shift, loss or duplication of a run of bytes
+        // changes the content (shifts inside a block hit the random part, whole-block shifts hit
+        // the stamp).  Built with block copies because a per-byte loop costs minutes under Miri.
+        let gen = |n: usize, salt: u64| -> Bytes {
+            const BLOCK: usize = 4096;
+            let mut base = [0u8; BLOCK];
+            let mut x = salt;
+            for (i, b) in base.iter_mut().enumerate() {
+                x = x.wrapping_mul(6364136223846793005).wrapping_add(1442695040888963407 ^ i as u64);
+                *b = (x >> 33) as u8;
+            }
+            let mut v = Vec::with_capacity(n + BLOCK);
+            let mut j = 0u64;
+            while v.len() < n {
+                let at = v.len();
+                v.extend_from_slice(&base);
+                v[at..at + 8].copy_from_slice(&(j.wrapping_mul(0x9E37_79B9_7F4A_7C15) ^ salt).to_le_bytes());
+                j += 1;
+            }
+            v.truncate(n);
+            Bytes::from(v)
+        };
+        Env {
+            r: [W::new(), W::new()],
+            i: [W::new(), W::new()],
+            fed: gen(fed_len, 7),
+            unr: gen(unr_len, 99),
+            fed_mod: fed_len - MAX_CHUNK,
+            unr_mod: unr_len - MAX_CHUNK,
+        }
+    }
+    fn bytes_of(&self, s: &Seg) -> &[u8] {
+        let src = if s.src == 0 { &self.fed } else { &self.unr };
+        &src[s.off..s.off + s.len]
+    }
+}
+
+// ------------------------------------------------------------------------------------------------
+// the sender cannot be named outside actix-http: hold it inside a closure
+
+enum SCmd<'a> {
+    Feed(Bytes),
+    Eof,
+    Err(PayloadError),
+    NeedRead(&'a Waker),
+    Drop,
+}
+
+type Tx = Box<dyn for<'a> FnMut(SCmd<'a>) -> u8>;
+
+struct First(u8);
+impl std::fmt::Write for First {
+    fn write_str(&mut self, s: &str) -> std::fmt::Result {
+        if self.0 == 0 {
+            if let Some(b) = s.bytes().next() {
+                self.0 = b;
+            }
+        }
+        Ok(())
+    }
+}
+
+fn open(eof: bool) -> (Tx, Payload) {
+    let (tx, rx) = Payload::create(eof);
+    let mut tx = Some(tx);
+    let f = move |cmd: SCmd<'_>| -> u8 {
+        if let SCmd::Drop = cmd {
+            tx.take();
+            return 0;
+        }
+        let Some(s) = tx.as_mut() else { return 0 };
+        match cmd {
+            SCmd::Feed(b) => s.feed_data(b),
+            SCmd::Eof => s.feed_eof(),
+            SCmd::Err(e) => s.set_error(e),
+            SCmd::NeedRead(w) => {
+                let mut cx = Context::from_waker(w);
+                // PayloadStatus is not nameable either; its Debug output is Read / Pause / Dropped
+                let mut f = First(0);
+                let _ = write!(f, "{:?}", s.need_read(&mut cx));
+                return f.0;
+            }
+            SCmd::Drop => {}
+        }
+        0
+    };
+    (Box::new(f), rx)
+}
+
+fn mk_err(k: ErrKind, alt: bool) -> PayloadError {
+    match k {
+        ErrKind::Incomplete if alt => {
+            PayloadError::Incomplete(Some(std::io::Error::new(std::io::ErrorKind::UnexpectedEof, "cut")))
+        }
+        ErrKind::Incomplete => PayloadError::Incomplete(None),
+        ErrKind::EncodingCorrupted => PayloadError::EncodingCorrupted,
+        ErrKind::Overflow => PayloadError::Overflow,
+        ErrKind::UnknownLength => PayloadError::UnknownLength,
+        ErrKind::Io | ErrKind::Other => PayloadError::Io(std::io::Error::new(std::io::ErrorKind::Other, "io")),
+    }
+}
+
+fn err_kind(e: &PayloadError) -> ErrKind {
+    match e {
+        PayloadError::Incomplete(_) => ErrKind::Incomplete,
+        PayloadError::EncodingCorrupted => ErrKind::EncodingCorrupted,
+        PayloadError::Overflow => ErrKind::Overflow,
+        PayloadError::UnknownLength => ErrKind::UnknownLength,
+        PayloadError::Io(_) => ErrKind::Io,
+        _ => ErrKind::Other,
+    }
+}
+
+/// The reading half, either bare or inside the `actix_http::Payload` enum handlers receive.
+enum Rx {
+    Raw(Payload),
+    Wrapped(actix_http::Payload),
+}
+
+impl Rx {
+    fn poll(&mut self, cx: &mut Context<'_>) -> Poll<Option<Result<Bytes, PayloadError>>> {
+        match self {
+            Rx::Raw(p) => Pin::new(p).poll_next(cx),
+            Rx::Wrapped(p) => Pin::new(p).poll_next(cx),
+        }
+    }
+    fn unread(&mut self, b: Bytes) {
+        match self {
+            Rx::Raw(p) => p.unread_data(b),
+            Rx::Wrapped(actix_http::Payload::H1 { payload }) => payload.unread_data(b),
+            Rx::Wrapped(_) => unreachable!("constructed from an h1 payload"),
+        }
+    }
+}
+
+// ------------------------------------------------------------------------------------------------
+// one channel under observation
+
+struct Failure {
+    class: &'static str,
+    site: String,
+    detail: String,
+}
+
+macro_rules! fail {
+    ($class:expr, $site:expr, $($arg:tt)*) => {
+        return Err(Failure { class: $class, site: $site.to_string(), detail: format!($($arg)*) })
+    };
+}
+
+#[derive(Default)]
+struct Stats {
+    ops: [u64; 11],
+    outs: [u64; 9],
+    err_by_kind: [u64; 6],
+    skipped: u64,
+    bytes_fed: u64,
+    bytes_unread: u64,
+    bytes_delivered: u64,
+    chunks_delivered: u64,
+    boundary_kept: u64,
+    boundary_changed: u64,
+    empty_chunks_delivered: u64,
+    reader_wake_demands: u64,
+    feeder_wake_demands: u64,
+    reader_rearmed_other_waker: u64,
+    feeder_rearmed_other_waker: u64,
+    pause_at_or_over_limit: u64,
+    pause_below_limit: u64,
+    read_over_limit_after_unread: u64,
+    read_at_exact_limit: u64,
+    read_after_reader_drop: u64,
+    dropped_status_with_reader_alive: u64,
+    reader_dropped_while_feeder_paused: u64,
+    end_clean: u64,
+    end_error_then_clean: u64,
+    end_incomplete_by_drop: u64,
+    end_set_error: u64,
+    polls_after_ending: u64,
+    max_buffered: u64,
+    max_buffered_disciplined: u64,
+    epilogues: u64,
+    task_cases: u64,
+    task_parks_reader: u64,
+    task_parks_feeder: u64,
+    task_reader_dropped: u64,
+    task_feeder_parked_at_reader_drop: u64,
+    task_completed: u64,
+    task_capped: u64,
+    states: HashSet<u64>,
+}
+
+struct Sys<'e> {
+    env: &'e Env,
+    tx: Tx,
+    rx: Option<Rx>,
+    m: Channel,
+    /// (reader waker index, its count when `Pending` was returned)
+    reader_waiting: Option<(usize, u64)>,
+    /// (feeder waker index, its count when `Pause` was returned)
+    feeder_waiting: Option<(usize, u64)>,
+    next_fed: u64,
+    next_unr: u64,
+    last_read: Option<(Bytes, Vec<Seg>)>,
+    max_chunk_fed: usize,
+    /// the last op was need_read -> Read (used by the disciplined-feeder bound)
+    read_granted: bool,
+}
+
+impl<'e> Sys<'e> {
+    fn new(env: &'e Env, eof: bool, wrapped: bool) -> Sys<'e> {
+        let (tx, rx) = open(eof);
+        Sys {
+            env,
+            tx,
+            rx: Some(if wrapped { Rx::Wrapped(actix_http::Payload::from(rx)) } else { Rx::Raw(rx) }),
+            m: Channel::new(eof),
+            reader_waiting: None,
+            feeder_waiting: None,
+            next_fed: 0,
+            next_unr: 0,
+            last_read: None,
+            max_chunk_fed: 0,
+            read_granted: false,
+        }
+    }
+
+    fn buf_class(&self) -> (u64, &'static str) {
+        let b = self.m.buffered();
+        if b == 0 {
+            (0, "0")
+        } else if b < LIMIT {
+            (1, "<L")
+        } else if b == LIMIT {
+            (2, "=L")
+        } else {
+            (3, ">L")
+        }
+    }
+
+    /// abstract state: used for evidence signatures and for violation sites
+    fn abs_code(&self) -> u64 {
+        let mut c = self.buf_class().0;
+        c = c * 4 + self.m.chunks().min(3) as u64;
+        c = c * 2 + self.m.eof_signalled as u64;
+        c = c * 3 + self.m.errs.len().min(2) as u64;
+        c = c * 2 + self.m.err_ever_set as u64;
+        c = c * 2 + self.m.sender_alive as u64;
+        c = c * 2 + self.m.reader_alive as u64;
+        c = c * 2 + self.reader_parked() as u64;
+        c = c * 2 + self.feeder_parked() as u64;
+        c = c * 2 + self.m.tainted as u64;
+        c = c * 3
+            + match self.m.delivered_end {
+                None => 0,
+                Some(End::Clean) => 1,
+                Some(End::Error(_)) => 2,
+            };
+        c
+    }
+    /// the reader's last poll said Pending and the waker of that poll has not fired since
+    fn reader_parked(&self) -> bool {
+        matches!(self.reader_waiting, Some((w, snap)) if self.env.r[w].n() == snap)
+    }
+    fn feeder_parked(&self) -> bool {
+        matches!(self.feeder_waiting, Some((w, snap)) if self.env.i[w].n() == snap)
+    }
+
+    /// Is `op` something a well-behaved user of the API would do in the current state?
+    fn valid(&self, op: Op) -> bool {
+        match op {
+            Op::Feed(_) => self.m.sender_alive && !self.m.eof_signalled && !self.m.err_ever_set,
+            Op::FeedEof => self.m.sender_alive && !self.m.eof_signalled,
+            Op::SetErr(_) | Op::DropSender | Op::NeedRead(_) => self.m.sender_alive,
+            Op::Poll(_) | Op::Unread(_) | Op::DropReader => self.m.reader_alive,
+            Op::UnreadBack(_) => self.m.reader_alive && self.last_read.is_some(),
+        }
+    }
+
+    /// A feeder-side event that a parked reader must be told about has just been applied.
+    fn sender_event(&mut self, st: &mut Stats, site: &str, what: &str) -> Result<(), Failure> {
+        if let Some((w, snap)) = self.reader_waiting.take() {
+            st.reader_wake_demands += 1;
+            if self.env.r[w].n() == snap {
+                fail!(
+                    "wake/lost-reader-wakeup",
+                    site,
+                    "the reader's last poll (waker {}) returned Pending; then {what} and that waker was not fired",
+                    wname(w as u8)
+                );
+            }
+        }
+        Ok(())
+    }
+
+    fn step(&mut self, op: Op, st: &mut Stats) -> Result<Out, Failure> {
+        if !self.valid(op) {
+            st.skipped += 1;
+            return Ok(Out::Skipped);
+        }
+        let pre = self.abs_code();
+        // the violation site is built from the state *before* the op (string only made on failure)
+        let before = SiteCtx { abs: self.abs_snapshot() };
+        st.ops[op.kind_code() as usize] += 1;
+        let granted = std::mem::replace(&mut self.read_granted, false);
+
+        let out = match op {
+            Op::Feed(n) => {
+                let n = n.min(MAX_CHUNK);
+                let off = (self.next_fed as usize) % self.env.fed_mod;
+                let seg = Seg { src: 0, id: self.next_fed, off, len: n, back: false };
+                self.next_fed += n as u64;
+                (self.tx)(SCmd::Feed(self.env.fed.slice(off..off + n)));
+                self.m.feed(seg);
+                if self.m.reader_alive {
+                    st.bytes_fed += n as u64;
+                    self.max_chunk_fed = self.max_chunk_fed.max(n);
+                }
+                if n > 0 && self.m.reader_alive {
+                    self.sender_event(st, &before.site(op, "ok"), "data was fed")?;
+                }
+                if granted && self.m.reader_alive {
+                    // disciplined feeder: this feed was preceded by need_read -> Read
+                    let bound = LIMIT + n + self.m.buffered_unread();
+                    st.max_buffered_disciplined = st.max_buffered_disciplined.max(self.m.buffered() as u64);
+                    if self.m.buffered() > bound {
+                        fail!(
+                            "backpressure/bound",
+                            before.site(op, "ok"),
+                            "feeding only after need_read said Read, {} bytes are buffered (> 32 KiB + chunk {} + {} pushed-back bytes)",
+                            self.m.buffered(),
+                            n,
+                            self.m.buffered_unread()
+                        );
+                    }
+                }
+                Out::Done
+            }
+            Op::FeedEof => {
+                (self.tx)(SCmd::Eof);
+                self.m.feed_eof();
+                if self.m.reader_alive {
+                    self.sender_event(st, &before.site(op, "ok"), "feed_eof was called")?;
+                }
+                Out::Done
+            }
+            Op::SetErr(k) => {
+                (self.tx)(SCmd::Err(mk_err(k, self.next_fed % 2 == 1)));
+                self.m.set_error(k);
+                if self.m.reader_alive {
+                    self.sender_event(st, &before.site(op, "ok"), "set_error was called")?;
+                }
+                Out::Done
+            }
+            Op::DropSender => {
+                (self.tx)(SCmd::Drop);
+                let event = self.m.drop_sender();
+                self.feeder_waiting = None;
+                if event && self.m.reader_alive {
+                    self.sender_event(st, &before.site(op, "ok"), "the sender was dropped with neither eof nor error signalled")?;
+                }
+                Out::Done
+            }
+            Op::NeedRead(w) => {
+                let w = w as usize;
+                let fired_before = self.env.i[w].n();
+                let status = (self.tx)(SCmd::NeedRead(&self.env.i[w].w));
+                match status {
+                    b'R' => {
+                        self.feeder_waiting = None;
+                        if !self.m.reader_alive {
+                            st.read_after_reader_drop += 1;
+                        } else if self.m.buffered() > LIMIT {
+                            if self.m.tainted {
+                                st.read_over_limit_after_unread += 1;
+                            } else {
+                                fail!(
+                                    "backpressure/read-over-limit",
+                                    before.site(op, "read"),
+                                    "need_read said Read with {} bytes buffered, none of the excess due to unread_data",
+                                    self.m.buffered()
+                                );
+                            }
+                        } else if self.m.buffered() == LIMIT {
+                            st.read_at_exact_limit += 1;
+                        }
+                        self.read_granted = true;
+                        Out::Read
+                    }
+                    b'P' => {
+                        if !self.m.reader_alive {
+                            fail!(
+                                "stall/pause-after-reader-drop",
+                                before.site(op, "pause"),
+                                "need_read said Pause although the reader is gone: nobody can ever wake this feeder"
+                            );
+                        }
+                        if self.m.buffered() >= LIMIT {
+                            st.pause_at_or_over_limit += 1;
+                        } else {
+                            // "woken once the reader drains below the limit": the reader already
+                            // has, so the wake-up is due now — parking this feeder loses it
+                            st.pause_below_limit += 1;
+                            if self.m.delivered_end.is_none() && self.env.i[w].n() == fired_before {
+                                fail!(
+                                    "wake/pause-below-limit",
+                                    before.site(op, "pause"),
+                                    "need_read said Pause (and did not fire the waker) with only {} bytes buffered (< 32 KiB): the condition for waking this feeder already holds",
+                                    self.m.buffered()
+                                );
+                            }
+                        }
+                        if let Some((ow, _)) = self.feeder_waiting {
+                            if ow != w {
+                                st.feeder_rearmed_other_waker += 1;
+                            }
+                        }
+                        if self.m.delivered_end.is_none() {
+                            self.feeder_waiting = Some((w, self.env.i[w].n()));
+                        }
+                        Out::Pause
+                    }
+                    b'D' => {
+                        self.feeder_waiting = None;
+                        if self.m.reader_alive {
+                            st.dropped_status_with_reader_alive += 1;
+                        }
+                        Out::Dropped
+                    }
+                    other => fail!("harness", "need_read", "unrecognised PayloadStatus rendering {:?}", other as char),
+                }
+            }
+            Op::Poll(w) => {
+                let w = w as usize;
+                let mut cx = Context::from_waker(&self.env.r[w].w);
+                let res = self.rx.as_mut().expect("valid() checked").poll(&mut cx);
+                if self.m.delivered_end.is_some() {
+                    st.polls_after_ending += 1;
+                }
+                let out = match res {
+                    Poll::Ready(Some(Ok(b))) => {
+                        let (segs, whole) = match self.m.on_data(b.len()) {
+                            Ok(x) => x,
+                            Err(f) => fail!(f.class(), before.site(op, "data"), "{:?}", f),
+                        };
+                        let mut at = 0;
+                        for s in &segs {
+                            let want = self.env.bytes_of(s);
+                            let got = &b[at..at + s.len];
+                            if got != want {
+                                let j = got.iter().zip(want).position(|(a, b)| a != b).unwrap_or(0);
+                                fail!(
+                                    "bytes/wrong-content",
+                                    before.site(op, "data"),
+                                    "chunk of {} bytes: byte {} of the chunk should be {} byte #{} (value {:#04x}) but is {:#04x}",
+                                    b.len(),
+                                    at + j,
+                                    if s.src == 0 { "fed" } else { "pushed-back" },
+                                    s.id + j as u64,
+                                    want[j],
+                                    got[j]
+                                );
+                            }
+                            at += s.len;
+                        }
+                        st.bytes_delivered += b.len() as u64;
+                        st.chunks_delivered += 1;
+                        if b.is_empty() {
+                            st.empty_chunks_delivered += 1;
+                        } else if whole {
+                            st.boundary_kept += 1;
+                        } else {
+                            st.boundary_changed += 1;
+                        }
+                        self.last_read = Some((b, segs));
+                        self.reader_waiting = None;
+                        Out::Data
+                    }
+                    Poll::Ready(Some(Err(e))) => {
+                        let k = err_kind(&e);
+                        let first = self.m.delivered_end.is_none();
+                        let by_drop = !self.m.err_ever_set;
+                        if let Err(f) = self.m.on_error(k) {
+                            fail!(f.class(), before.site(op, &format!("err({})", k.name())), "{:?}", f);
+                        }
+                        if first {
+                            if by_drop {
+                                st.end_incomplete_by_drop += 1;
+                            } else {
+                                st.end_set_error += 1;
+                            }
+                        }
+                        st.err_by_kind[KINDS.iter().position(|x| *x == k).unwrap_or(5)] += 1;
+                        self.reader_waiting = None;
+                        self.feeder_waiting = None;
+                        Out::Err(k)
+                    }
+                    Poll::Ready(None) => {
+                        let after_err = matches!(self.m.delivered_end, Some(End::Error(_)));
+                        let first = self.m.delivered_end.is_none();
+                        if let Err(f) = self.m.on_end() {
+                            fail!(f.class(), before.site(op, "end"), "{:?}", f);
+                        }
+                        if first {
+                            st.end_clean += 1;
+                        } else if after_err {
+                            st.end_error_then_clean += 1;
+                        }
+                        self.reader_waiting = None;
+                        self.feeder_waiting = None;
+                        Out::End
+                    }
+                    Poll::Pending => {
+                        if let Err(f) = self.m.on_pending() {
+                            fail!(f.class(), before.site(op, "pending"), "{:?}", f);
+                        }
+                        if self.m.delivered_end.is_none() {
+                            if let Some((ow, _)) = self.reader_waiting {
+                                if ow != w {
+                                    st.reader_rearmed_other_waker += 1;
+                                }
+                            }
+                            self.reader_waiting = Some((w, self.env.r[w].n()));
+                        }
+                        Out::Pending
+                    }
+                };
+                // the reader has just taken its turn: if less than the limit is buffered now, a
+                // feeder that was told to pause must have been woken (at or after its Pause)
+                if self.m.buffered() < LIMIT {
+                    if let Some((fw, snap)) = self.feeder_waiting.take() {
+                        st.feeder_wake_demands += 1;
+                        if self.env.i[fw].n() == snap {
+                            fail!(
+                                "wake/lost-feeder-wakeup",
+                                before.site(op, &out.name()),
+                                "need_read (waker {}) said Pause; the reader has drained the buffer to {} bytes (< 32 KiB) and that waker was never fired",
+                                wname(fw as u8),
+                                self.m.buffered()
+                            );
+                        }
+                    }
+                }
+                out
+            }
+            Op::Unread(n) => {
+                let n = n.min(MAX_CHUNK);
+                let off = (self.next_unr as usize) % self.env.unr_mod;
+                let seg = Seg { src: 1, id: self.next_unr, off, len: n, back: true };
+                self.next_unr += n as u64;
+                self.rx.as_mut().expect("valid() checked").unread(self.env.unr.slice(off..off + n));
+                self.m.unread(seg);
+                st.bytes_unread += n as u64;
+                Out::Done
+            }
+            Op::UnreadBack(n) => {
+                let (b, segs) = self.last_read.take().expect("valid() checked");
+                let k = n.min(b.len());
+                self.rx.as_mut().expect("valid() checked").unread(b.slice(b.len() - k..));
+                // the last k bytes of `segs`, pushed to the front so that they come out in order
+                let mut need = k;
+                for s in segs.iter().rev() {
+                    if need == 0 {
+                        break;
+                    }
+                    let take = need.min(s.len);
+                    let skip = s.len - take;
+                    self.m.unread(Seg { src: s.src, id: s.id + skip as u64, off: s.off + skip, len: take, back: true });
+                    need -= take;
+                }
+                st.bytes_unread += k as u64;
+                Out::Done
+            }
+            Op::DropReader => {
+                self.rx = None;
+                self.m.drop_reader();
+                self.reader_waiting = None;
+                self.last_read = None;
+                if self.feeder_parked() {
+                    st.reader_dropped_while_feeder_paused += 1;
+                }
+                self.feeder_waiting = None;
+                Out::Done
+            }
+        };
+
+        // nobody may be left waiting for the other side while the other side waits for them
+        if self.m.sender_alive && self.m.reader_alive && self.reader_parked() && self.feeder_parked() {
+            fail!(
+                "stall/mutual-wait",
+                before.site(op, &out.name()),
+                "the reader is parked on Pending and the feeder is parked on Pause at the same time, neither waker fired"
+            );
+        }
+
+        st.outs[out.code() as usize] += 1;
+        st.max_buffered = st.max_buffered.max(self.m.buffered() as u64);
+        st.states.insert((pre * 11 + op.kind_code()) * 9 + out.code());
+        Ok(out)
+    }
+
+    fn abs_snapshot(&self) -> AbsSnap {
+        AbsSnap {
+            buf: self.buf_class().1,
+            chunks: self.m.chunks().min(3),
+            eof: self.m.eof_signalled,
+            errs: self.m.errs.len().min(2),
+            tx: self.m.sender_alive,
+            rx: self.m.reader_alive,
+            rpark: self.reader_parked(),
+            fpark: self.feeder_parked(),
+            taint: self.m.tainted,
+            end: match self.m.delivered_end {
+                None => "-",
+                Some(End::Clean) => "clean",
+                Some(End::Error(_)) => "err",
+            },
+        }
+    }
+}
+
+#[derive(Clone, Copy)]
+struct AbsSnap {
+    buf: &'static str,
+    chunks: usize,
+    eof: bool,
+    errs: usize,
+    tx: bool,
+    rx: bool,
+    rpark: bool,
+    fpark: bool,
+    taint: bool,
+    end: &'static str,
+}
+
+/// Abstract state before the failing operation: the violation signature is
+/// "<op kind> -> <result> | <abstract state before>".
+struct SiteCtx {
+    abs: AbsSnap,
+}
+
+impl SiteCtx {
+    fn site(&self, op: Op, out: &str) -> String {
+        let a = &self.abs;
+        format!(
+            "{} -> {} | buf{} chunks{} eof{} errs{} tx{} rx{} rpark{} fpark{} taint{} end{}",
+            op.kind(),
+            out,
+            a.buf,
+            a.chunks,
+            a.eof as u8,
+            a.errs,
+            a.tx as u8,
+            a.rx as u8,
+            a.rpark as u8,
+            a.fpark as u8,
+            a.taint as u8,
+            a.end
+        )
+    }
+}
+
+// ------------------------------------------------------------------------------------------------
+// running sequences
+
+const EPILOGUE_POLL_CAP: usize = 4096;
+
+/// Settling epilogue appended to every sequence: drain; drop the sender; drain again.  Runs
+/// through `step`, so every clause of the oracle applies to it.
+fn epilogue(sys: &mut Sys<'_>, st: &mut Stats) -> Result<(), (String, Failure)> {
+    st.epilogues += 1;
+    for round in 0..2 {
+        if sys.m.reader_alive {
+            let mut n = 0;
+            loop {
+                let out = sys.step(Op::Poll(0), st).map_err(|f| (format!("epilogue poll(A) #{n} (round {round})"), f))?;
+                if out != Out::Data {
+                    break;
+                }
+                n += 1;
+                if n > EPILOGUE_POLL_CAP {
+                    return Err((
+                        "epilogue".into(),
+                        Failure {
+                            class: "bytes/phantom",
+                            site: "epilogue drain".into(),
+                            detail: format!("the reader was still being given data after {EPILOGUE_POLL_CAP} polls with nothing fed"),
+                        },
+                    ));
+                }
+            }
+        }
+        if round == 0 {
+            if !sys.m.sender_alive {
+                break;
+            }
+            sys.step(Op::DropSender, st).map_err(|f| ("epilogue drop_sender".to_string(), f))?;
+        }
+    }
+    Ok(())
+}
+
+/// Run a fixed sequence (exhaustive phase, replay, shrinking).  Returns where and how it failed.
+fn run_fixed(env: &Env, eof: bool, wrapped: bool, ops: &[Op], st: &mut Stats) -> Option<(String, Failure)> {
+    let r = guard(|| {
+        let mut sys = Sys::new(env, eof, wrapped);
+        for (idx, &op) in ops.iter().enumerate() {
+            if let Err(f) = sys.step(op, st) {
+                return Some((format!("op #{idx} {}", op.name()), f));
+            }
+        }
+        epilogue(&mut sys, st).err()
+    });
+    match r {
+        Ok(x) => x,
+        Err(p) => Some((
+            "panic".into(),
+            Failure { class: "panic", site: panic_site(&p), detail: format!("panic while running the sequence: {p}") },
+        )),
+    }
+}
+
+fn report_failure(env: &Env, rep: &mut Reporter, eof: bool, wrapped: bool, ops: &[Op], at: String, f: Failure, origin: &str) {
+    // shrink: drop operations that are not needed for the same (class, site)
+    let mut cur: Vec<Op> = ops.to_vec();
+    let mut scratch = Stats::default();
+    let mut i = 0;
+    let mut budget = 3000;
+    let (mut at, mut f) = (at, f);
+    while i < cur.len() && budget > 0 {
+        budget -= 1;
+        let mut cand = cur.clone();
+        cand.remove(i);
+        match run_fixed(env, eof, wrapped, &cand, &mut scratch) {
+            Some((a2, g)) if g.class == f.class && g.site == f.site => {
+                cur = cand;
+                at = a2;
+                f = g;
+            }
+            _ => i += 1,
+        }
+    }
+    // cut everything after the failing op
+    if let Some(n) = at.strip_prefix("op #").and_then(|s| s.split(' ').next()).and_then(|s| s.parse::<usize>().ok()) {
+        cur.truncate(n + 1);
+    }
+    let names: Vec<String> = cur.iter().map(|o| o.name()).collect();
+    rep.violation(
+        f.class,
+        &f.site,
+        &format!(
+            "{} — at {} of create({}){} ; {} (then epilogue: drain, drop sender, drain) [{}]",
+            f.detail,
+            at,
+            eof,
+            if wrapped { " read through actix_http::Payload::H1" } else { "" },
+            names.join(" ; "),
+            origin
+        ),
+        json!({"eof_init": eof, "wrapped": wrapped, "ops": names}),
+    );
+}
+
+// ---- exhaustive enumeration --------------------------------------------------------------------
+
+/// cheap validity state for pruning (mirrors `Sys::valid` without running anything)
+#[derive(Clone, Copy)]
+struct V {
+    tx: bool,
+    rx: bool,
+    eof: bool,
+    err: bool,
+}
+
+impl V {
+    fn valid(&self, op: Op) -> bool {
+        match op {
+            Op::Feed(_) => self.tx && !self.eof && !self.err,
+            Op::FeedEof => self.tx && !self.eof,
+            Op::SetErr(_) => self.tx && !self.err,
+            Op::DropSender | Op::NeedRead(_) => self.tx,
+            Op::Poll(_) | Op::Unread(_) | Op::DropReader => self.rx,
+            Op::UnreadBack(_) => false,
+        }
+    }
+    fn apply(&mut self, op: Op) {
+        match op {
+            Op::FeedEof => self.eof = true,
+            Op::SetErr(_) => self.err = true,
+            Op::DropSender => self.tx = false,
+            Op::DropReader => self.rx = false,
+            _ => {}
+        }
+    }
+}
+
+const SMALL: usize = 1;
+/// one byte under the limit: alone it leaves room, together with SMALL it hits the limit exactly,
+/// two of them exceed it and take two polls to drain below it
+const BIG: usize = LIMIT - 1;
+
+fn alphabet() -> Vec<Op> {
+    vec![
+        Op::Feed(SMALL),
+        Op::Feed(BIG),
+        Op::FeedEof,
+        Op::SetErr(ErrKind::Overflow),
+        Op::DropSender,
+        Op::NeedRead(0),
+        Op::NeedRead(1),
+        Op::Poll(0),
+        Op::Poll(1),
+        Op::Unread(5),
+        Op::DropReader,
+    ]
+}
+
+/// Depth-first walk over every valid sequence; `leaf` is called for every maximal one (full depth,
+/// or no valid continuation).  Returns false if `leaf` asked to stop.
+fn walk(alpha: &[Op], depth: usize, v: V, seq: &mut Vec<Op>, leaf: &mut dyn FnMut(&[Op]) -> bool) -> bool {
+    if seq.len() == depth {
+        return leaf(seq);
+    }
+    let mut any = false;
+    for &op in alpha {
+        if !v.valid(op) {
+            continue;
+        }
+        any = true;
+        let mut v2 = v;
+        v2.apply(op);
+        seq.push(op);
+        let go = walk(alpha, depth, v2, seq, leaf);
+        seq.pop();
+        if !go {
+            return false;
+        }
+    }
+    if !any {
+        return leaf(seq);
+    }
+    true
+}
+
+// ---- random sequences --------------------------------------------------------------------------
+
+const SIZES: [usize; 14] = [0, 1, 2, 7, 100, 1500, 4096, 16_384, LIMIT - 2, LIMIT - 1, LIMIT, LIMIT + 1, 33_000, MAX_CHUNK];
+const UNREAD_SIZES: [usize; 6] = [1, 5, 100, 4096, LIMIT - 1, 33_000];
+
+#[derive(Clone, Copy, PartialEq, Eq, Debug)]
+enum Profile {
+    /// any valid op
+    Free,
+    /// the feeder asks need_read before every feed and feeds only on Read
+    Disciplined,
+    /// like Free but feeds are mostly large, so the buffer hovers around the limit
+    Heavy,
+}
+
+fn gen_op(rng: &mut Rng, sys: &Sys<'_>, prof: Profile, last: Option<(Op, Out)>, remaining: usize) -> Op {
+    // terminal operations are rare so that sequences stay alive; they become likely near the end
+    let near_end = remaining < 12;
+    for _ in 0..64 {
+        let roll = rng.below(1000);
+        let term = if near_end { 120 } else { 12 };
+        let op = if roll < term {
+            match rng.below(6) {
+                0 => Op::FeedEof,
+                1 => Op::SetErr(*rng.pick(&KINDS)),
+                2 => Op::DropSender,
+                3 => Op::DropReader,
+                4 => Op::FeedEof,
+                _ => Op::SetErr(*rng.pick(&KINDS)),
+            }
+        } else {
+            let feeder_turn = rng.chance(1, 2);
+            if feeder_turn {
+                let size = match prof {
+                    Profile::Heavy if rng.chance(3, 4) => *rng.pick(&SIZES[7..]),
+                    _ if rng.chance(1, 8) => rng.range(0, MAX_CHUNK),
+                    _ => *rng.pick(&SIZES),
+                };
+                match prof {
+                    Profile::Disciplined => match last {
+                        Some((Op::NeedRead(_), Out::Read)) => Op::Feed(size),
+                        _ => Op::NeedRead(rng.below(2) as u8),
+                    },
+                    _ => {
+                        if rng.chance(2, 5) {
+                            Op::NeedRead(rng.below(2) as u8)
+                        } else {
+                            Op::Feed(size)
+                        }
+                    }
+                }
+            } else {
+                match rng.below(20) {
+                    0 => Op::Unread(*rng.pick(&UNREAD_SIZES)),
+                    1 | 2 => Op::UnreadBack(*rng.pick(&[1usize, 3, 64, 100_000])),
+                    _ => Op::Poll(if rng.chance(1, 6) { 1 } else { 0 }),
+                }
+            }
+        };
+        if sys.valid(op) {
+            return op;
+        }
+    }
+    // nothing valid found by sampling: fall back to whatever is still possible
+    for op in [Op::Poll(0), Op::NeedRead(0), Op::DropSender, Op::DropReader] {
+        if sys.valid(op) {
+            return op;
+        }
+    }
+    Op::DropReader
+}
+
+/// One online-generated random case.  Returns the ops executed and the failure, if any.
+fn run_random(env: &Env, rng: &mut Rng, len: usize, st: &mut Stats) -> (bool, bool, Vec<Op>, Option<(String, Failure)>) {
+    let eof = rng.chance(1, 25);
+    let wrapped = rng.chance(1, 2);
+    let prof = *rng.pick(&[Profile::Free, Profile::Disciplined, Profile::Heavy, Profile::Disciplined]);
+    let mut ops: Vec<Op> = Vec::with_capacity(len);
+    let r = guard(|| {
+        let mut sys = Sys::new(env, eof, wrapped);
+        let mut last = None;
+        for k in 0..len {
+            if !sys.m.sender_alive && !sys.m.reader_alive {
+                break;
+            }
+            let op = gen_op(rng, &sys, prof, last, len - k);
+            ops.push(op);
+            match sys.step(op, st) {
+                Ok(out) => last = Some((op, out)),
+                Err(f) => return Some((format!("op #{k} {}", op.name()), f)),
+            }
+        }
+        epilogue(&mut sys, st).err()
+    });
+    let fail = match r {
+        Ok(x) => x,
+        Err(p) => Some((
+            "panic".into(),
+            Failure { class: "panic", site: panic_site(&p), detail: format!("panic while running the sequence: {p}") },
+        )),
+    };
+    (eof, wrapped, ops, fail)
+}
+
+// ---- wake-driven tasks -------------------------------------------------------------------------
+
+#[derive(Clone, Copy, Debug, PartialEq, Eq)]
+enum Ending {
+    Eof,
+    EofThenDrop,
+    ErrThenEof(ErrKind),
+    Err(ErrKind),
+    Drop,
+}
+
+/// A feeder task and a reader task, each run only when it has never parked or the waker it parked
+/// with has fired.  The feeder parks when `need_read` says Pause, the reader parks on `Pending`.
+/// When no task is runnable the case is over: unless the body was delivered to its ending (or the
+/// reader walked away), that is a logical stall.  All `step` oracles apply along the way.
+fn run_tasks(env: &Env, rng: &mut Rng, miri: bool, st: &mut Stats) -> (bool, Vec<Op>, Option<(String, Failure)>) {
+    let wrapped = rng.chance(1, 2);
+    let nchunks = if miri { rng.range(1, 8) } else { rng.range(1, 60) };
+    let big_bias = rng.below(4);
+    let chunks: Vec<usize> = (0..nchunks)
+        .map(|_| if rng.below(4) < big_bias { *rng.pick(&SIZES[6..]) } else { *rng.pick(&SIZES[..8]) })
+        .collect();
+    let ending = match rng.below(8) {
+        0 | 1 | 2 => Ending::Eof,
+        3 => Ending::EofThenDrop,
+        4 => Ending::ErrThenEof(ErrKind::Incomplete),
+        5 => Ending::Err(*rng.pick(&KINDS)),
+        _ => Ending::Drop,
+    };
+    let feeder_burst = *rng.pick(&[1usize, 2, 4, 1000]);
+    let reader_burst = *rng.pick(&[1usize, 2, 4, 1000]);
+    let reader_share = *rng.pick(&[1usize, 2, 3]); // out of 4
+    let unread_pct = *rng.pick(&[0usize, 0, 5, 20]);
+    let reader_quits_after = if rng.chance(1, 8) { Some(rng.below(nchunks + 1)) } else { None };
+
+    let mut ops: Vec<Op> = vec![];
+    let r = guard(|| {
+        let mut sys = Sys::new(env, false, wrapped);
+        let mut next_chunk = 0usize;
+        let mut ending_step = 0u8;
+        let mut feeder_done = false;
+        let mut reader_done = false; // ending received or walked away
+        let mut reader_quit = false;
+        let mut chunks_read = 0usize;
+        // parked: Some(count of waker A when parking)
+        let mut fpark: Option<u64> = None;
+        let mut rpark: Option<u64> = None;
+        let mut do_op = |sys: &mut Sys<'_>, op: Op, st: &mut Stats| -> Result<Out, (String, Failure)> {
+            let k = ops.len();
+            ops.push(op);
+            sys.step(op, st).map_err(|f| (format!("op #{k} {}", op.name()), f))
+        };
+        let mut capped = true;
+        for _ in 0..20_000 {
+            let f_run = !feeder_done && fpark.map_or(true, |s| env.i[0].n() > s);
+            let r_run = !reader_done && rpark.map_or(true, |s| env.r[0].n() > s);
+            let pick_reader = match (f_run, r_run) {
+                (false, false) => {
+                    capped = false;
+                    break;
+                }
+                (true, false) => false,
+                (false, true) => true,
+                (true, true) => rng.below(4) < reader_share,
+            };
+            if pick_reader {
+                rpark = None;
+                for _ in 0..reader_burst {
+                    if reader_quits_after == Some(chunks_read) {
+                        do_op(&mut sys, Op::DropReader, st)?;
+                        reader_done = true;
+                        reader_quit = true;
+                        break;
+                    }
+                    match do_op(&mut sys, Op::Poll(0), st)? {
+                        Out::Data => {
+                            chunks_read += 1;
+                            if rng.below(100) < unread_pct {
+                                do_op(&mut sys, Op::UnreadBack(*rng.pick(&[1usize, 10, 100_000])), st)?;
+                            }
+                        }
+                        Out::Pending => {
+                            rpark = Some(env.r[0].n());
+                            st.task_parks_reader += 1;
+                            break;
+                        }
+                        Out::Err(_) | Out::End => {
+                            // a truncated body is reported as error, then (if eof was fed) end;
+                            // the reader stops at the first ending like any consumer would
+                            reader_done = true;
+                            break;
+                        }
+                        _ => {}
+                    }
+                }
+            } else {
+                fpark = None;
+                for _ in 0..feeder_burst {
+                    match do_op(&mut sys, Op::NeedRead(0), st)? {
+                        Out::Pause => {
+                            fpark = Some(env.i[0].n());
+                            st.task_parks_feeder += 1;
+                            break;
+                        }
+                        Out::Dropped => {
+                            // drain mode: the connection would discard the rest of the body
+                            feeder_done = true;
+                            break;
+                        }
+                        _ => {}
+                    }
+                    if next_chunk < chunks.len() {
+                        do_op(&mut sys, Op::Feed(chunks[next_chunk]), st)?;
+                        next_chunk += 1;
+                        continue;
+                    }
+                    let op = match (ending, ending_step) {
+                        (Ending::Eof, 0) | (Ending::EofThenDrop, 0) => Some(Op::FeedEof),
+                        (Ending::EofThenDrop, 1) => Some(Op::DropSender),
+                        (Ending::ErrThenEof(k), 0) | (Ending::Err(k), 0) => Some(Op::SetErr(k)),
+                        (Ending::ErrThenEof(_), 1) => Some(Op::FeedEof),
+                        (Ending::Drop, 0) => Some(Op::DropSender),
+                        _ => None,
+                    };
+                    match op {
+                        Some(op) => {
+                            do_op(&mut sys, op, st)?;
+                            ending_step += 1;
+                        }
+                        None => {
+                            feeder_done = true;
+                            break;
+                        }
+                    }
+                    if !sys.m.sender_alive {
+                        feeder_done = true;
+                        break;
+                    }
+                }
+            }
+        }
+        let k = ops.len();
+        if capped {
+            // still runnable after 20 000 scheduling steps: not a verdict the monitor can give
+            st.task_capped += 1;
+            return Ok(());
+        }
+        // nobody is runnable any more
+        if reader_quit {
+            st.task_reader_dropped += 1;
+            if !feeder_done {
+                // parked on Pause when the reader walked away: Payload has no Drop hook; the
+                // property does not promise a wake-up here (the dispatcher is re-polled by the
+                // handler's completion), so this is counted, not judged
+                st.task_feeder_parked_at_reader_drop += 1;
+            }
+            return Ok(());
+        }
+        if !reader_done || !feeder_done {
+            let who = match (feeder_done, reader_done) {
+                (false, false) => "feeder parked on Pause and reader parked on Pending",
+                (true, false) => "feeder finished (ending signalled) but the reader stays parked on Pending",
+                _ => "reader got its ending but the feeder stays parked on Pause",
+            };
+            if !reader_done || sys.m.sender_alive && sys.feeder_parked() && !feeder_done && sys.m.delivered_end.is_none() {
+                return Err((
+                    format!("after op #{}", k.saturating_sub(1)),
+                    Failure {
+                        class: "stall/no-runnable-task",
+                        site: format!("tasks: {} | {}", if feeder_done { "feeder done" } else { "feeder parked" }, if reader_done { "reader done" } else { "reader parked" }),
+                        detail: format!("{who}; fed {}/{} chunks, {} bytes in, {} bytes out", next_chunk, chunks.len(), sys.m.total_in, sys.m.total_out),
+                    },
+                ));
+            }
+        }
+        // the reader reached an ending: everything that was put in must have come out
+        if sys.m.total_in != sys.m.total_out {
+            return Err((
+                format!("after op #{}", k.saturating_sub(1)),
+                Failure {
+                    class: "bytes/lost-before-ending",
+                    site: "tasks: totals".into(),
+                    detail: format!("reader got its ending after {} bytes, {} were put in", sys.m.total_out, sys.m.total_in),
+                },
+            ));
+        }
+        st.task_completed += 1;
+        Ok(())
+    });
+    let fail = match r {
+        Ok(Ok(())) => None,
+        Ok(Err(e)) => Some(e),
+        Err(p) => Some((
+            "panic".into(),
+            Failure { class: "panic", site: panic_site(&p), detail: format!("panic while running the tasks: {p}") },
+        )),
+    };
+    st.task_cases += 1;
+    (wrapped, ops, fail)
+}
+
+// ------------------------------------------------------------------------------------------------
+
+fn flush_stats(st: &Stats, rep: &mut Reporter) {
+    let op_names = ["feed-empty", "feed>=limit", "feed", "feed_eof", "set_error", "drop_sender", "need_read", "poll", "unread", "unread_back", "drop_reader"];
+    for (i, n) in op_names.iter().enumerate() {
+        rep.count(&format!("op:{n}"), st.ops[i]);
+    }
+    let out_names = ["ok", "skipped", "poll:data", "poll:pending", "poll:error", "poll:end", "need_read:read", "need_read:pause", "need_read:dropped"];
+    for (i, n) in out_names.iter().enumerate() {
+        if i != 1 {
+            rep.count(&format!("result:{n}"), st.outs[i]);
+        }
+    }
+    for (i, k) in KINDS.iter().enumerate() {
+        rep.count(&format!("error_delivered:{}", k.name()), st.err_by_kind[i]);
+    }
+    rep.count("error_delivered:other", st.err_by_kind[5]);
+    rep.count("ops_skipped_invalid", st.skipped);
+    rep.count("bytes_fed", st.bytes_fed);
+    rep.count("bytes_pushed_back", st.bytes_unread);
+    rep.count("bytes_delivered_and_compared", st.bytes_delivered);
+    rep.count("chunks_delivered", st.chunks_delivered);
+    rep.count("chunk_boundary_kept", st.boundary_kept);
+    rep.count("chunk_boundary_changed", st.boundary_changed);
+    rep.count("empty_chunks_delivered", st.empty_chunks_delivered);
+    rep.count("reader_wakeups_demanded_and_seen", st.reader_wake_demands);
+    rep.count("feeder_wakeups_demanded_and_seen", st.feeder_wake_demands);
+    rep.count("reader_reparked_with_other_waker", st.reader_rearmed_other_waker);
+    rep.count("feeder_reparked_with_other_waker", st.feeder_rearmed_other_waker);
+    rep.count("pause_at_or_over_limit", st.pause_at_or_over_limit);
+    rep.count("pause_below_limit", st.pause_below_limit);
+    rep.count("tolerated:read_over_limit_after_unread", st.read_over_limit_after_unread);
+    rep.count("tolerated:read_at_exactly_limit", st.read_at_exact_limit);
+    rep.count("tolerated:read_after_reader_drop", st.read_after_reader_drop);
+    rep.count("tolerated:dropped_status_with_reader_alive", st.dropped_status_with_reader_alive);
+    rep.count("tolerated:reader_dropped_while_feeder_paused", st.reader_dropped_while_feeder_paused);
+    rep.count("ending:clean", st.end_clean);
+    rep.count("ending:error_then_clean", st.end_error_then_clean);
+    rep.count("ending:incomplete_by_sender_drop", st.end_incomplete_by_drop);
+    rep.count("ending:set_error", st.end_set_error);
+    rep.count("polls_after_ending", st.polls_after_ending);
+    rep.max("buffered_bytes", st.max_buffered);
+    rep.max("buffered_bytes_disciplined_feeder", st.max_buffered_disciplined);
+    rep.count("epilogues", st.epilogues);
+    rep.count("task_cases", st.task_cases);
+    rep.count("task_cases_delivered_to_ending", st.task_completed);
+    rep.count("task_reader_parks", st.task_parks_reader);
+    rep.count("task_feeder_parks", st.task_parks_feeder);
+    rep.count("task_reader_walked_away", st.task_reader_dropped);
+    rep.count("tolerated:task_feeder_parked_when_reader_walked_away", st.task_feeder_parked_at_reader_drop);
+    for s in &st.states {
+        rep.sig(&format!("{s:x}"));
+    }
+}
+
+fn ops_json(ops: &[Op], max: usize) -> Value {
+    json!(ops.iter().take(max).map(|o| o.name()).collect::<Vec<_>>())
+}
+
+pub fn run(ctx: &Ctx, rep: &mut Reporter) {
+    let miri = ctx.is_miri();
+    let env = Env::new(miri);
+    let mut st = Stats::default();
+
+    // ---- replay ---------------------------------------------------------------------------------
+    if let Some(rp) = &ctx.replay {
+        rep.eval();
+        if let Some(t) = rp.get("tasks") {
+            let (seed, k) = (t["seed"].as_u64().unwrap_or(0), t["k"].as_u64().unwrap_or(0));
+            let mut rng = Rng::derive(seed, 73, k);
+            let (_, ops, fail) = run_tasks(&env, &mut rng, t["miri"].as_bool().unwrap_or(false), &mut st);
+            if let Some((at, f)) = fail {
+                let names: Vec<String> = ops.iter().map(|o| o.name()).collect();
+                rep.violation(f.class, &f.site, &format!("{} — at {} of tasks case: {}", f.detail, at, names.join(" ; ")), rp.clone());
+            }
+        } else {
+            let eof = rp["eof_init"].as_bool().unwrap_or(false);
+            let wrapped = rp["wrapped"].as_bool().unwrap_or(false);
+            let ops: Vec<Op> = rp["ops"].as_array().map(|a| a.iter().filter_map(|v| v.as_str().and_then(Op::parse)).collect()).unwrap_or_default();
+            if let Some((at, f)) = run_fixed(&env, eof, wrapped, &ops, &mut st) {
+                report_failure(&env, rep, eof, wrapped, &ops, at, f, "replay");
+            }
+        }
+        flush_stats(&st, rep);
+        rep.sig("replay");
+        rep.sig("replay2");
+        return;
+    }
+
+    // ---- phase 1: every valid sequence to the depth bound, from both initial states -------------
+    let alpha = alphabet();
+    let depth: usize = if miri { 4 } else if ctx.thorough() { 10 } else { 7 };
+    let mut complete = true;
+    let mut leaf_idx = 0u64;
+    let mut ran = 0u64;
+    for eof in [false, true] {
+        let v0 = V { tx: true, rx: true, eof, err: false };
+        let mut seq = Vec::with_capacity(depth);
+        let mut failures: Vec<(Vec<Op>, String, Failure)> = vec![];
+        let mut leaf = |ops: &[Op]| -> bool {
+            let idx = leaf_idx;
+            leaf_idx += 1;
+            if !ctx.mine(idx) {
+                return true;
+            }
+            if ran % 8192 == 0 && ctx.out_of_time() {
+                return false;
+            }
+            ran += 1;
+            rep.eval();
+            if let Some((at, f)) = run_fixed(&env, eof, false, ops, &mut st) {
+                if failures.len() < 64 {
+                    failures.push((ops.to_vec(), at, f));
+                }
+            }
+            if ran == 1 || ran == 40_001 {
+                rep.sample("exhaustive-sequence", json!({"create_eof": eof, "ops": ops_json(ops, 16)}));
+            }
+            true
+        };
+        if !walk(&alpha, depth, v0, &mut seq, &mut leaf) {
+            complete = false;
+        }
+        for (ops, at, f) in failures {
+            report_failure(&env, rep, eof, false, &ops, at, f, "exhaustive");
+        }
+    }
+    rep.exhaustive(
+        &format!("all valid op sequences of length <= {depth} over {} operation instances, from create(false) and create(true)", alpha.len()),
+        complete,
+    );
+    rep.max("exhaustive_depth", depth as u64);
+    rep.max("exhaustive_maximal_sequences", leaf_idx);
+    rep.count("exhaustive_sequences_run", ran);
+
+    // ---- phase 2: long random sequences, generated online ---------------------------------------
+    let nseq = if miri { 12 } else { ctx.share(640_000, 16_000_000) };
+    let len = if miri { 40 } else { 200 };
+    for s in 0..nseq {
+        if s % 64 == 0 && ctx.out_of_time() {
+            rep.inconclusive("random phase cut short by the time budget");
+            break;
+        }
+        let mut rng = Rng::derive(ctx.seed, 7, s * ctx.nshards + ctx.shard);
+        rep.eval();
+        let (eof, wrapped, ops, fail) = run_random(&env, &mut rng, len, &mut st);
+        rep.count("random_ops", ops.len() as u64);
+        rep.count(if wrapped { "cases_read_through_actix_http_Payload" } else { "cases_read_bare_h1_Payload" }, 1);
+        if let Some((at, f)) = fail {
+            report_failure(&env, rep, eof, wrapped, &ops, at, f, "random");
+        }
+        if s == 0 {
+            rep.sample("random-sequence-prefix", json!({"create_eof": eof, "ops": ops_json(&ops, 24)}));
+        }
+    }
+
+    // ---- phase 3: wake-driven feeder and reader tasks -------------------------------------------
+    let ntask = if miri { 8 } else { ctx.share(480_000, 12_000_000) };
+    for s in 0..ntask {
+        if s % 64 == 0 && ctx.out_of_time() {
+            rep.inconclusive("task phase cut short by the time budget");
+            break;
+        }
+        let k = s * ctx.nshards + ctx.shard;
+        let mut rng = Rng::derive(ctx.seed, 73, k);
+        rep.eval();
+        let (wrapped, ops, fail) = run_tasks(&env, &mut rng, miri, &mut st);
+        rep.count("task_ops", ops.len() as u64);
+        rep.count(if wrapped { "cases_read_through_actix_http_Payload" } else { "cases_read_bare_h1_Payload" }, 1);
+        if let Some((at, f)) = fail {
+            if f.class == "stall/no-runnable-task" || f.site.starts_with("tasks:") {
+                let names: Vec<String> = ops.iter().map(|o| o.name()).collect();
+                let tail = names.len().saturating_sub(30);
+                rep.violation(
+                    f.class,
+                    &f.site,
+                    &format!("{} — at {}; last ops: {}", f.detail, at, names[tail..].join(" ; ")),
+                    json!({"tasks": {"seed": ctx.seed, "k": k, "miri": miri}}),
+                );
+            } else {
+                // a per-operation clause fired: the op list alone reproduces it
+                report_failure(&env, rep, false, wrapped, &ops, at, f, "tasks");
+            }
+        }
+        if s == 0 {
+            rep.sample("task-schedule-prefix", ops_json(&ops, 24));
+        }
+    }
+
+    flush_stats(&st, rep);
+    if st.reader_wake_demands == 0 || st.feeder_wake_demands == 0 {
+        rep.inconclusive("no reader or no feeder wake-up was ever demanded: the wake-up clauses observed nothing");
+    }
+    if st.end_clean == 0 || st.end_incomplete_by_drop == 0 || st.end_set_error == 0 {
+        rep.inconclusive("an ending class (clean / set error / incomplete by sender drop) was never delivered");
+    }
+    if st.task_capped > 0 {
+        rep.inconclusive("a task case was still runnable after 20000 scheduling steps");
+    }
+    if !miri && (st.pause_at_or_over_limit == 0 || st.task_completed == 0) {
+        rep.inconclusive("back-pressure never engaged or no task case ran to its ending");
+    }
 }
